@@ -98,10 +98,11 @@ def run_tasks(tasks, seed=0, nproc=None):
             p.join(timeout=3)
             if p.is_alive():
                 p.kill()
-        try:
-            os.unlink(stopfile)
-        except OSError:
-            pass
+        for f in (stopfile, stopfile + ".violation"):
+            try:
+                os.unlink(f)
+            except OSError:
+                pass
     return out
 
 
